@@ -169,9 +169,11 @@ CHECKS = {
         text='Explicit heap model (object identity, class, attribute values); theorems: FRAME - no operation other than setattr on that very '
              'object changes an existing object; copy() without overrides is a new object of the same class with equal values; frozen '
              'objects reject set/del with the heap unchanged; freeze idempotent on frozen; thaw(freeze(m)) has m\'s values and class; None '
-             'maps to None; equal frozen objects hash equal and hashing is total on hashable values. Correspondence compares class and '
+             'maps to None; equal frozen objects hash equal and hashing is total on hashable values; C15_copy_overrides: for every valid Message '
+             'and EVERY override set (valid or invalid values, unknown names) copy(**ov) succeeds exactly when a fresh construction with the '
+             'merged values does and returns an equal message. Correspondence compares class and '
              'vars() of EVERY live object after every op of random histories (aliasing shows up as a change of an untouched object).',
-        note='"Copy with overrides = fresh construction" is decided by the oracle (construct afresh and compare), not by a theorem. Creating new attribute names on UnknownMetaMessage is outside.',
+        note='For MetaMessage/UnknownMetaMessage "copy with overrides = fresh construction" holds by construction of the model (copy IS the constructor call, as in the code) and is decided by the oracle; the theorem is for Message. Creating new attribute names on UnknownMetaMessage is outside.',
         technique='Lean 4 proof (heap frame property by case analysis of the step function) over a hand model; differential correspondence on heap histories',
         design='5 C15'),
     'C14': dict(
